@@ -357,12 +357,18 @@ def gen_case(rng, tier):
     # a NON-absorbing state whose every action self-loops with probability 1 - 2^-k (rest elsewhere, no rewards),
     # or self-loops with probability exactly 1 but earns a reward of +-2^-30 on one action.  All dyadic: floats exact.
     m_boundary = None
-    if qv is None and rng.random() < .15:
+    if qv is None and rng.random() < .22:
         cand = [s for s in range(n) if m["actions"][s] and not m["absorbing"][s]]
         pref = [s for s in cand if s in [x for x, p in m["init"] if F(p) > 0]]
         if cand:
             s = rng.choice(pref or cand)
             kind = rng.choice(["prob", "prob", "reward"]) if n >= 2 else "reward"
+            if nA >= 2 and not uniform and rng.random() < .45:
+                kind = "cancel"                      # rewards of both signs that cancel across the actions
+                m["actions"][s] = rng.sample(range(nA), rng.randint(2, nA))
+                for a in range(nA):
+                    if a not in m["actions"][s]:
+                        m["trans"].pop("%d,%d" % (s, a), None)
             for k in [k for k in m["reward"] if k.startswith("%d," % s)]:
                 m["reward"].pop(k)
             if kind == "prob":
@@ -372,6 +378,15 @@ def gen_case(rng, tier):
                     row = [[s, str(1 - eps)], [other, str(eps)]]
                     rng.shuffle(row)
                     m["trans"]["%d,%d" % (s, a)] = row
+            elif kind == "cancel":
+                acts_ = list(m["actions"][s])
+                for a in acts_:
+                    m["trans"]["%d,%d" % (s, a)] = [[s, "1"]]
+                r_ = F(rng.choice([1, 2, 3, 5]), rng.choice([1, 4]))
+                vals = [r_, -r_] if len(acts_) == 2 or rng.random() < .5 else [2 * r_, -r_, -r_]
+                rng.shuffle(acts_)
+                for a, v in zip(acts_, vals):
+                    m["reward"]["%d,%d,%d" % (s, a, s)] = str(v)
             else:
                 for a in set(m["actions"][s]):
                     m["trans"]["%d,%d" % (s, a)] = [[s, "1"]]
@@ -442,7 +457,9 @@ def gen_case(rng, tier):
             # pass the discount rate as a Python int (0 / 1) instead of a float (0.0 / 1.0)
             "gamma_int": m["gamma"] in ("0", "1") and rng.random() < .5,
             "explicit_states": None, "explicit_actions": None, "qv": qv,
-            "cutoffs": sorted(set(rng.randint(0, n + 1) for _ in range(rng.randint(1, 3)))),
+            "cutoffs": sorted(set([rng.randint(0, n + 1) for _ in range(rng.randint(1, 3))]
+                                  + ([0] if rng.random() < .35 else []) + ([1] if rng.random() < .35 else []))),
+            "cutoff_positional": rng.random() < .5,
             "vi": {"max_iterations": 60, "max_residual": "1/100000"}}
     # falsy start state for the `initial_state=` form of the quick constructor
     if qv and qv["init_state"]:
@@ -916,6 +933,20 @@ def check_case(ctx, case, res, val, stats):
                 bad = "result is not the full reachable set although no cut-off was given"
             elif k is not None and R != full_code and len(R) < k:
                 bad = "search stopped below max_states although states were left to expand"
+            else:
+                # conformance of msdm's own pop sequence with the loop's contract (cut-off tested before every pop;
+                # props/C06.v reachable_cutoff_stop is its first instance): order of pops is free, this is not
+                V = set(s0)
+                for t in run["trace"]:
+                    if k is not None and len(V) >= k:
+                        bad = "a state was expanded although max_states states had already been visited"
+                        break
+                    if t not in V:
+                        bad = "a state was expanded that had not been visited"
+                        break
+                    V |= set(ns for a in m["actions"][t] for ns, p in m["trans"]["%d,%d" % (t, a)] if F(p) != 0)
+                if not bad and V != R:
+                    bad = "result is not the initial support plus the successors of the expanded states"
             if bad:
                 ck.report("C06:reachable:" + bad.replace(" ", "-"), {"run": run, "clause": bad, "full": sorted(full_code)}, True)
             else:
@@ -1238,6 +1269,9 @@ def run(ctx):
              "states_sortable": bool(v[1][2]), "actions_sortable": bool(v[1][5]),
              "dead_end": any(len(a) == 0 for a in case["mdp"]["actions"]),
              "boundary_prob": case.get("boundary") == "prob", "boundary_reward": case.get("boundary") == "reward",
+             "boundary_cancelling_rewards": case.get("boundary") == "cancel",
+             "cutoff_zero": 0 in case["cutoffs"], "cutoff_one": 1 in case["cutoffs"], "cutoff_positional": bool(case.get("cutoff_positional")),
+             "cutoff_le_initial_support": any(k <= len([1 for _, p in case["mdp"]["init"] if F(p) > 0]) for k in case["cutoffs"]),
              "gamma_near_one": F(999, 1000) < F(case["mdp"]["gamma"]) < 1, "no_actions_at_all": not any(case["mdp"]["actions"]),
              "no_explicit_absorbing": not any(case["mdp"]["absorbing"]),
              "falsy_state_label": any(is_falsy(e) for e in case["slabels"]), "falsy_action_label": any(is_falsy(e) for e in case["alabels"]),
@@ -1269,7 +1303,7 @@ def run(ctx):
         "evaluations": len(idx),
         "distinct_nontrivial": len(distinct),
         "rule": "functional MDPs from harness/gen_mdp.py (1..%d states, 1..3 actions, k/8 probabilities, in 30%% of the cases non-dyadic rows (tenths, 0.7/0.2/0.1, thirds, sevenths, 1/k over up to 11 outcomes; the case holds the exact rational of each double), zero-probability entries in "
-                "next-state and initial distributions, rewards on zero-probability successors, explicit/implicit absorbing states, near-absorbing states (self-loop probability 1 - 2^-k, k in {10,20,30}, or reward +-2^-30 on a certain self-loop), dead ends, actions listed twice, "
+                "next-state and initial distributions, rewards on zero-probability successors, explicit/implicit absorbing states, near-absorbing states (self-loop probability 1 - 2^-k, k in {10,20,30}, or reward +-2^-30 on a certain self-loop, or rewards of both signs cancelling across certain self-loops), dead ends, actions listed twice, "
                 "gamma in {1/2..19/20, 1, 0, 2^-20, 1-2^-20}, 0 and 1 passed as int or float) rewards up to 1e6 or 2^-30 apart, initial probabilities 2^-30 / 1-2^-30, MDPs without any action or without absorbing states; 40%% also go through from_matrices on non-canonical dense arrays (transition rows under unavailable actions, rewards on zero-probability transitions, action-matrix entries 2); relabelled with ints / floats / bools / falsy labels (0, 0.0, False, '', (), frozendict()) / strings / int tuples / (int,str) tuples / frozendicts / nested mixed tuples "
                 "(sortable and unsortable sets), explicit (shuffled, with unreachable states) or inferred state and action lists, 1-3 "
                 "max_states cut-offs in 0..n+1, constant/deterministic QuickMDP argument variants; %s; distinct = structural hash of (MDP, labels, "
